@@ -83,6 +83,9 @@ func genCase(t *rapid.T) Case {
 	if cli && rapid.IntRange(0, 5).Draw(t, "cli") == 0 {
 		c.CLI = true
 	}
+	if os.Getenv("C05_DEV_ALL_CLI") != "" && os.Getenv("VERIF_DESYNC_BIN") != "" { // development aid: every case through the binary
+		c.CLI = true
+	}
 	c.Sizes = gen.Sizes{Min: 48, Avg: 64, Max: 256}
 	if c.Via == "index" {
 		if c.CLI {
@@ -654,7 +657,7 @@ func run(c Case) (o hx.Outcome) {
 	sig := func(pipe, out, typ, field string) string { return "C05:" + pipe + ":" + out + ":" + typ + ":" + field }
 	report := func(pipe string, ds []fstree.Difference, skip map[string]bool) {
 		for _, d := range ds {
-			if skip[d.Key()] {
+			if skip[diffKey(d)] {
 				continue
 			}
 			typ := d.Type
@@ -701,7 +704,7 @@ func run(c Case) (o hx.Outcome) {
 			refRaw = r.raw
 			ds := compare(S, r, c.Output, false, sha256d)
 			for _, d := range ds {
-				refKeys[d.Key()] = true
+				refKeys[diffKey(d)] = true
 			}
 			report("catar", ds, nil)
 		}
@@ -789,6 +792,16 @@ func run(c Case) (o hx.Outcome) {
 	}
 	report(pipe, compare(want, r, c.Output, skipRoot, sha256d), refKeys)
 	return o
+}
+
+// diffKey is the (path, field) identity used to attribute a variant's mismatch to the reference
+// pipeline; the sub-classes of mtime count as one field (a tar input rounds the wanted value).
+func diffKey(d fstree.Difference) string {
+	f := d.Field
+	if strings.HasPrefix(f, "mtime") {
+		f = "mtime"
+	}
+	return d.Path + "\x00" + f
 }
 
 func firstDiff(a, b []byte) int {
